@@ -127,4 +127,22 @@ Section DFT.
         rewrite (Nat.add_mod_idemp_r i (t + (N - i))) by lia.
         rewrite Nat.add_mod_idemp_l by lia.
         replace (i + (t + (N - i)) + (N - t)) with (2 * N) by lia. apply Nat.mod_mul. lia. Qed.
+  (** Plancherel / Parseval in bilinear form: with the conjugate transform  dftc b k = sum_j b[j] w^(-jk)  (for real signals over the
+      complex numbers, the complex conjugate of dft b k),  sum_k dft a k * dftc b k = N * sum_j a[j] * b[j];  a = b is Parseval's identity *)
+  Definition dftc (b : nat -> R) (k : nat) : R := rsum N (fun j => b j [*] rpow w ((N - j) * k)).
+
+  Theorem plancherel a b : rsum N (fun k => dft a k [*] dftc b k) = rnat N [*] rsum N (fun j => a j [*] b j).
+  Proof. unfold dft, dftc.
+    rewrite (rsum_ext N _ (fun k => rsum N (fun i => rsum N (fun l => (a i [*] b l) [*] rpow w (k * (i + (N - l))))))).
+    2:{ intros k _. rewrite <- rsum_scal_r. apply rsum_ext. intros i _. rewrite <- rsum_scal. apply rsum_ext. intros l _.
+        replace (k * (i + (N - l))) with (i * k + (N - l) * k) by lia. rewrite rpow_add. ring. }
+    rewrite rsum_swap.
+    rewrite (rsum_ext N _ (fun i => rsum N (fun l => (a i [*] b l) [*] rsum N (fun k => rpow w (k * (i + (N - l))))))).
+    2:{ intros i _. rewrite rsum_swap. apply rsum_ext. intros l _. apply rsum_scal. }
+    rewrite <- rsum_scal. apply rsum_ext. intros i Hi.
+    rewrite (rsum_delta N i (fun l => rnat N [*] (a i [*] b l))); try assumption; try reflexivity.
+    - intros l Hl Hne. rewrite orth_all. destruct (Nat.eq_dec ((i + (N - l)) mod N) 0) as [E|_]; [|ring].
+      exfalso. apply Nat.mod_divides in E; [|lia]. destruct E as [c Hc]. assert (c = 1%nat) by nia. subst c. lia.
+    - rewrite orth_all. replace (i + (N - i)) with N by lia. rewrite Nat.mod_same by lia.
+      destruct (Nat.eq_dec 0 0); [ring|congruence]. Qed.
 End DFT.
